@@ -325,3 +325,40 @@ func extErrorsIs(fr *frame, a []value) value {
 	}
 	return false
 }
+
+// sortSlice models sort.Slice / sort.SliceStable / slices.SortFunc-like calls:
+// stable insertion sort on the interpreter slice, calling the interpreted less.
+func sortSlice(fr *frame, a []value) value {
+	var sl []value
+	switch x := a[0].(type) {
+	case iface:
+		sl, _ = x.v.([]value)
+	case []value:
+		sl = x
+	}
+	less := a[1]
+	i := fr.i
+	lt := func(p, q int) bool {
+		r := call(i, fr, token.NoPos, less, []value{p, q})
+		switch r := r.(type) {
+		case bool:
+			return r
+		case *Sym:
+			return i.branch(r.T)
+		}
+		panic("sortSlice: less returned non-bool")
+	}
+	for p := 1; p < len(sl); p++ {
+		for q := p; q > 0 && lt(q, q-1); q-- {
+			i.wr(&sl[q])
+			i.wr(&sl[q-1])
+			sl[q], sl[q-1] = sl[q-1], sl[q]
+		}
+	}
+	return nil
+}
+
+func init() {
+	externals2["sort.SliceStable"] = sortSlice
+	externals2["sort.Slice"] = sortSlice
+}
